@@ -3,20 +3,35 @@ namespace Yaclib.CoSharedMutex
 
 set_option maxHeartbeats 4000000 in
 theorem inv_step_11 {cfg s l s'} (hi : Inv cfg s) (hs : Step s l s') (hg : grpOf l = 11) : Inv cfg s' := by
-  cases hi
   cases hs with
   | uUnlockW c b n rest h hs hb hq =>
+      have ⟨hn, hnr⟩ := head_pc_wq hi hq
+      have hmem : ∀ x, x ∈ s.Q ↔ s.pc x = .rparked := fun x => mem_iff_of_count (hi.l_q x)
+      have hst := hi.st_sw c
+      have hlq := hi.l_qsize
       cases b with
-      | runWriter => cases hf : s.cfg.fifo <;> simp only [doUUnlock, hf, Bool.false_eq_true, ↓reduceIte] <;> sm_dbg [List.count_le_length]
-      | stored sw => cases hf : s.cfg.fifo <;> simp only [doUUnlock, hf, Bool.false_eq_true, ↓reduceIte] <;> sm_dbg [List.count_le_length]
+      | runWriter =>
+          cases hi
+          cases hf : s.cfg.fifo <;> simp only [doUUnlock, hf, Bool.false_eq_true, ↓reduceIte] <;> sm_auto [List.count_le_length]
+      | stored sw =>
+          have h2w := hi.j2w c ((hi.l_excl c).mp (by rw [h]; rfl))
+          have h2 := hi.j2 (by rw [(hi.l_excl c).mp (by rw [h]; rfl)]; simp)
+          cases hi
+          cases hf : s.cfg.fifo <;> simp only [doUUnlock, hf, Bool.false_eq_true, ↓reduceIte] <;> sm_auto [List.count_le_length]
       | readersPass sr => simp [needsWriter] at hb
       | passOnly sr => simp [needsWriter] at hb
   | uUnlockP c b h hs hb =>
       cases b with
       | runWriter => simp [needsWriter] at hb
       | stored sw => simp [needsWriter] at hb
-      | readersPass sr => simp only [doUUnlock]; sm_dbg [List.count_le_length]
-      | passOnly sr => simp only [doUUnlock]; sm_dbg [List.count_le_length]
+      | readersPass sr =>
+          have hpa := hi.pend_amt c sr (Or.inl h)
+          cases hi
+          simp only [doUUnlock]; sm_auto [List.count_le_length]
+      | passOnly sr =>
+          have hpa := hi.pend_amt c sr (Or.inr h)
+          cases hi
+          simp only [doUUnlock]; sm_auto [List.count_le_length]
   | _ => simp [grpOf] at hg
 
 end Yaclib.CoSharedMutex
